@@ -435,7 +435,11 @@ package commitlog
 //@   assumes l.leaderEpochCache != nil && wfEpochs(l.leaderEpochCache) && len(ms) > 28
 //@   call (*commitLog).append requires [written-to-the-active-segment-indexed-where-it-is-written] arg1 == l.vActiveSegment && len(arg3) >= 1 && arg3[0].Position == arg1.position && arg2 == ms
 // append: the offsets returned are the entries' offsets
-//@ func (*commitLog).append serves C01, C16, C02
+// (C05) a new epoch is recorded BEFORE the batch that brings it is written: a death in between then leaves an entry
+// without a message, which reopening drops, and not a message whose epoch is unknown - the history of the reopened log
+// would otherwise be wrong for good
+//@ ghost var batchWritten bool
+//@ func (*commitLog).append serves C01, C16, C02, C05
 //@   returns (offsets, err)
 //@   requires l != nil && l.leaderEpochCache != nil && wfEpochs(l.leaderEpochCache) && segment != nil && len(entries) >= 1 && (forall j int :: 0 <= j && j < len(entries) ==> entries[j] != nil)
 //@   ensures [offsets] err == nil ==> len(offsets) == len(entries) && (forall j int :: 0 <= j && j < len(offsets) ==> offsets[j] == old(entries[j].Offset))
@@ -453,7 +457,10 @@ package commitlog
 //@   loop 1 invariant -1 <= rangeindex && rangeindex < len(entries) && fresh(offsets) && len(offsets) == len(entries)
 //@   loop 1 invariant forall j int :: 0 <= j && j < len(entries) ==> entries[j] == old(entries[j]) && entries[j] != nil && entries[j].Offset == old(entries[j].Offset)
 //@   loop 1 invariant forall j int :: 0 <= j && j <= rangeindex ==> offsets[j] == old(entries[j].Offset)
-//@   loop 1 invariant segment.lastOffset == old(entries[len(entries)-1].Offset) && wfEpochs(l.leaderEpochCache) && l.leaderEpochCache == old(l.leaderEpochCache)
+//@   loop 1 invariant wfEpochs(l.leaderEpochCache) && l.leaderEpochCache == old(l.leaderEpochCache) && segment == old(segment) && segment != nil
+//@   ghost at entry: ghost.batchWritten := false
+//@   ghost after call WriteMessageSet: ghost.batchWritten := true
+//@   call Assign requires [C05:epoch-recorded-before-its-first-message-is-written] !ghost.batchWritten
 //@   loop 1 invariant forall x *segment :: x.BaseOffset == old(x.BaseOffset)
 //@   loop 1 invariant forall x *commitLog :: x.vActiveSegment == old(x.vActiveSegment)
 
